@@ -35,9 +35,9 @@ for s in sigs:
             add(f"{prop}-D7", "SPARQL inside a transaction: INSERT/DELETE DATA are buffered per transaction but queries read only the committed triple set, so a transaction does not see its own triple writes; rollback/drop simply forget the buffer", "crates/grafeo-engine/src/query/planner_rdf.rs:1607 (scan uses RdfStore::find), session.rs commit applies the buffer", s)
         elif r in DB_LEVEL and prop == "C01":
             add(f"{prop}-D5", "database-level readers (node_count/edge_count/iter_nodes/iter_edges) read at the store's epoch without regard to who created a version: versions of open (uncommitted) transactions are counted and iterated", "crates/grafeo-core/src/graph/lpg/store.rs:1581-1650, 2355-2410 (visible_at(current_epoch) only)", s)
-        elif prop == "C01" and sc.startswith("dirty_"):
+        elif prop == "C01" and (sc.startswith("dirty_") or scobs == "snapshot_across_epoch_bump.read_while_foreign_open"):
             add("C01-D1", "dirty reads: a version created inside transaction T is stamped with T's start epoch and property/label/adjacency tables are updated in place, so other sessions see T's uncommitted INSERT/CREATE/SET/REMOVE/DELETE/label changes before T commits", "crates/grafeo-engine/src/session.rs:713-747, crates/grafeo-core/src/execution/operators/mutation.rs, crates/grafeo-core/src/graph/lpg/store.rs:847-905,1368-1530 (single-version tables)", s)
-        elif prop == "C01" and scobs == "repeatable.read_after_foreign_commit":
+        elif prop == "C01" and scobs in ("repeatable.read_after_foreign_commit", "snapshot_across_epoch_bump.read_after_foreign_commit"):
             add("C01-D2", "non-repeatable and phantom reads: a transaction that began before a foreign commit sees that commit's changes on its next read (same root causes as C01-D1: start-epoch stamping and in-place tables)", "same sites as C01-D1", s)
         elif prop == "C01" and sc == "own_write":
             add("C01-D3", "a transaction does not see some of its own writes through some read paths", "crates/grafeo-core/src/execution/operators/*.rs (paths that read at the store epoch / ignore the transaction id)", s)
@@ -59,13 +59,20 @@ for s in sigs:
     else:
         add(f"{prop}-W", "the engine refused a write or a transaction step in this scenario", "see signature", s)
 
-out = {"findings": []}
+import os
+path = f"/verif/known_findings.d/{prop}.json"
+out = json.load(open(path)) if os.path.exists(path) else {"findings": []}
+byid = {f["id"]: f for f in out["findings"]}
 for gid, g in GROUPS.items():
-    out["findings"].append({
-        "property": prop, "id": gid, "status": "open", "what": g["what"], "where": g["where"],
-        "witness": f"findings/{gid}.json",
-        "match": {"signatures": sorted(set(g["sigs"]))},
-    })
-json.dump(out, open(f"/verif/known_findings.d/{prop}.json", "w"), indent=1)
+    if gid in byid:
+        f = byid[gid]
+        f["match"]["signatures"] = sorted(set(f["match"]["signatures"]) | set(g["sigs"]))
+    else:
+        out["findings"].append({
+            "property": prop, "id": gid, "status": "open", "what": g["what"], "where": g["where"],
+            "witness": f"findings/{gid}.json",
+            "match": {"signatures": sorted(set(g["sigs"]))},
+        })
+json.dump(out, open(path, "w"), indent=1)
 for gid, g in GROUPS.items():
     print(gid, len(set(g["sigs"])), g["what"][:90])
